@@ -8,13 +8,14 @@
      strings are hex of their UTF-8 bytes ("-" = empty), floats are bit patterns,
      values use the syntax of `parseValue` below, absent optional sections = absent key.
   answer    <hex of the reference frame> <decode status>
-     decode status: the reference *decoder* is run on the `go` payload and its result compared
-     with the fields of the request:  ok | nogo | decfail | diff | badtype
+     decode status: the reference *collector* (Wire.collect) is run on the frame around the `go` payload and
+     its result compared with pcode, license hash, type and fields of the request:  ok | nogo | decfail | diff | badtype
+  collect <hex of a frame>  →  <pcode> <license hash> <pack type>   |  fail
   an unknown key is answered  badkey:<key>
 
   hash <hex>   →  the 64-bit hash (signed decimal)
 -/
-import Golib.Wire.CounterCodec
+import Golib.Wire.Collector
 import Driver.Common
 
 open Prim Drv Wire
@@ -245,19 +246,19 @@ def keysOf (ty : String) : Option (List String) :=
   | "counter" => some counterKeys
   | _ => none
 
-/-- the reference decoder applied to an implementation payload: pack type, then the body,
-    consumed exactly; compared (through `Repr`) with the expected fields -/
-def decCheck [Repr α] (c : Codec α) (ty : Nat) (expected : α) (go : Option Bytes) : String :=
-  match go with
-  | none => "nogo"
-  | some bs =>
-    match P.run (rdU 2) bs with
-    | some (t, body) =>
-      if t != ty then "badtype" else
-      match c.dec body with
-      | some (x, []) => if reprStr x == reprStr expected then "ok" else "diff"
-      | _ => "decfail"
-    | none => "decfail"
+/-- the reference *collector* (`Wire.collect`: frame → pack type → body, consumed exactly) applied to the
+    frame built around the implementation's payload; its result is compared (through `Repr`) with the
+    expected project code, license hash, pack type and fields -/
+def decCheck (pcode : Int) (lic : Bytes) (ty : Nat) (expected : Option AnyPack) (go : Option Bytes) : String :=
+  match go, expected with
+  | none, _ => "nogo"
+  | _, none => "decfail"
+  | some bs, some ex =>
+    match collect (frame pcode lic bs) with
+    | some (rc, []) =>
+      if rc.packType != ty then "badtype"
+      else if reprStr rc == reprStr (⟨pcode, hash64 lic, ty, ex⟩ : Received) then "ok" else "diff"
+    | _ => "decfail"
 
 def anyV : Value → Prop := fun _ => True
 
@@ -270,32 +271,32 @@ def answerPack (ty : String) (kv : KV) : String :=
   match ty with
   | "tagcount" =>
     let p : TagCount := ⟨hdr, getHex kv "category", getI kv "tagHash", getMap kv "tags", getMap kv "data"⟩
-    out typeTagCount (encTagCount p) (decCheck (tagCountC anyV) typeTagCount p.norm go)
+    out typeTagCount (encTagCount p) (decCheck hdr.pcode lic typeTagCount (some (.tagcount p.norm)) go)
   | "logsink" =>
     let p : LogSink := ⟨hdr, getHex kv "category", getI kv "tagHash", getMap kv "tags", getI kv "line",
       getHex kv "content", getMap kv "fields"⟩
-    out typeLogSink (encLogSink p) (decCheck (logSinkC anyV) typeLogSink p.norm go)
+    out typeLogSink (encLogSink p) (decCheck hdr.pcode lic typeLogSink (some (.logsink p.norm)) go)
   | "text" =>
     let p : TextP := ⟨hdr, (recsOf ((lookup kv "recs").getD "-")).map (fun r => ⟨fN r 0, fI r 1, fH r 2⟩)⟩
-    out typeText (encTextP p) (decCheck textC typeText p go)
+    out typeText (encTextP p) (decCheck hdr.pcode lic typeText (some (.text p)) go)
   | "param" =>
     let p : Param := ⟨hdr, getI kv "id", getI kv "request", getI kv "response", getMap kv "table"⟩
-    out typeParameter (encParam p) (decCheck (paramC anyV) typeParameter p go)
+    out typeParameter (encParam p) (decCheck hdr.pcode lic typeParameter (some (.param p)) go)
   | "event" =>
     let e : Event := ⟨hdr, getHex kv "uuid", getN kv "esc" == 1, getN kv "level", getHex kv "title",
       getHex kv "message", getI kv "status", getI kv "otype",
       (recsOf ((lookup kv "attr").getD "-")).map (fun r => (fH r 0, fH r 1))⟩
-    out typeEvent (encEvent e) (decCheck eventWireC typeEvent e.toWire go)
+    out typeEvent (encEvent e) (decCheck hdr.pcode lic typeEvent ((Event.ofWire e.toWire).map .event) go)
   | "zip" =>
     let p : Zip := ⟨hdr, getN kv "status", getI kv "recordCount", getHex kv "records"⟩
-    out typeZip (encZip p) (decCheck zipC typeZip p go)
+    out typeZip (encZip p) (decCheck hdr.pcode lic typeZip (some (.zip p)) go)
   | "hitmap" =>
     let p : HitMap := ⟨hdr, getInts kv "hit", getInts kv "error"⟩
     let carried : HitMap := ⟨hdr, p.hit.map (fun v => v % 65536), p.error.map (fun v => v % 65536)⟩
-    out typeHitMap1 (encHitMap p) (decCheck hitMapC typeHitMap1 carried go)
+    out typeHitMap1 (encHitMap p) (decCheck hdr.pcode lic typeHitMap1 (some (.hitmap carried)) go)
   | "counter" =>
     let p := parseCounter kv
-    out typeCounter1 (encCounter p) (decCheck (counterC anyV) typeCounter1 p go)
+    out typeCounter1 (encCounter p) (decCheck hdr.pcode lic typeCounter1 (some (.counter p)) go)
   | _ => "bad-op"
 
 def answer (line : String) : String :=
@@ -304,6 +305,10 @@ def answer (line : String) : String :=
     match ofHex hex with
     | some bs => s!"{hash64 bs}"
     | none => "bad-op"
+  | ["collect", hex] =>
+    match (ofHex hex).bind collect with
+    | some (rc, []) => s!"{rc.pcode} {rc.licHash} {rc.packType}"
+    | _ => "fail"
   | ty :: rest =>
     match keysOf ty with
     | none => "bad-op"
